@@ -17,4 +17,4 @@ Extraction "model.ml"
   Io.mk_src Reader.read_all_src
   Introspect.read_metadata Introspect.page_headers Introspect.page_headers_at_offset
   Foreign.foreign_file Foreign.segment
-  Parse.parse_root Parse.shape_of Structs.struct_of_schema.
+  Parse.parse_root Parse.shape_of Structs.struct_of_schema Writer.schema_of.
